@@ -660,6 +660,7 @@ func (d *Data) cleaveIndex(v dvid.VersionID, op labels.CleaveOp, info dvid.ModIn
 	if err := d.addMutcache(v, op.MutID, idx); err != nil {
 		dvid.Criticalf("unable to add cleaved mutid %d index %d: %v\n", op.MutID, op.Target, err)
 	}
+	dvid.VerifYield("labelmap.cleaveIndex")
 
 	supervoxels := idx.GetSupervoxels()
 	for _, supervoxel := range op.CleavedSupervoxels {
@@ -705,6 +706,7 @@ func ChangeLabelIndex(d dvid.Data, v dvid.VersionID, label uint64, delta labels.
 		idx = new(labels.Index)
 		idx.Label = label
 	}
+	dvid.VerifYield("labelmap.ChangeLabelIndex")
 
 	if err := idx.ApplyChanges(delta); err != nil {
 		return err
